@@ -57,6 +57,10 @@ class Report:
     def __init__(self, pid: str, tier: str, technique: str):
         self.pid = pid
         self.tier = tier
+        if pid in ("C05", "C06", "C15"):
+            from vf import mypycir
+
+            mypycir.ensure_root()  # scratch root owned by this (parent) process, removed at exit
         self.seed = int(os.environ.get("VERIF_SEED", "0") or 0)
         self.t0 = time.time()
         self.technique = technique
